@@ -80,4 +80,17 @@ func (c *validatorListConstructor) appendNodeValidators(node schema.Node) {
 	}
 
 	c.list = append(c.list, v)
+
+	// An object or array marked `nullable: true` also admits null, exactly like a
+	// nullable literal or a nullable type reference does.
+	if _, ok := v.(*anyNestedStructure); !ok && isNullableBranchNode(node) {
+		c.list = append(c.list, newLiteralValidator(node, c.parent))
+	}
+}
+
+func isNullableBranchNode(node schema.Node) bool {
+	if _, ok := node.(schema.BranchNode); !ok {
+		return false
+	}
+	return node.Constraint(constraint.NullableConstraintType) != nil
 }
